@@ -1,23 +1,66 @@
 """C20 check configuration (see lib/runner.py for the meaning of the keys)."""
+import os
+
+import vf
+
+OUTD = os.path.join(vf.OUT, "C20")
+PROBES = os.path.join(OUTD, "schema_probes.json")
+TOOLS = os.path.join(vf.HARNESS, "tools", "schema")
+
+
+def gen_schema_tables(rep=None):
+    """regenerate coq/Gen/SchemaTables.v (+ SchemaTablesOk.v) and the probe list of the "schema" stream from the working
+    tree of the repo: schema/config.schema.json (python) and the loader's type registries / config structs (go/ast)"""
+    os.makedirs(OUTD, exist_ok=True)
+    tool = os.path.join(OUTD, "schematool")
+    rc, o = vf.sh(["go", "build", "-o", tool, "."], cwd=TOOLS, env=vf.GOENV, timeout=600)
+    if rc != 0:
+        return False, "schema/loader extractor does not build: " + o[-1500:]
+    lj = os.path.join(OUTD, "loader_tables.json")
+    rc, o = vf.sh("%s -repo %s > %s" % (tool, vf.REPO, lj), timeout=300)
+    if rc != 0:
+        return False, "loader extractor failed: " + o[-1500:]
+    rc, o = vf.sh(["python3", os.path.join(TOOLS, "gen.py"), vf.REPO, lj, os.path.join(vf.COQ, "Gen"), PROBES], timeout=120)
+    if rc != 0:
+        return False, "schema table generator failed: " + o[-1500:]
+    return True, "regenerated Gen/SchemaTables.v, Gen/SchemaTablesOk.v and %s" % PROBES
+
 
 P = {
     "id": "C20",
-    "claimed": False,  # flip to True once bin/check is green AND Properties/C20.v has real theorems
+    "claimed": False,  # flipped once the checks below are all in place
     "coq_targets": ["Properties/C20.vo", "Run/Eval_C20.vo"],
     "theorems_module": "Properties.C20",
-    "theorems": ["C20_F3_refuted", "C20_F4_refuted"],
+    "theorems": ["C20_load_meets_spec", "C20_env_order_independent", "C20_env_wins_per_leaf", "C20_defaults_fill",
+                 "C20_file_env_equivalent", "C20_merge_later_wins_no_panic", "C20_F3_refuted", "C20_F4_refuted"],
     "streams": [{
         "name": "tree", "pkg": "./internal/config/parser", "test": "TestVerifC20",
         "overlay": {"internal/config/parser/zz_verif_c20_test.go": "c20/c20_tree_test.go"},
         "eval_module": "Run.Eval_C20", "check_term": "check false false",
         "n_quick": 1200, "n_thorough": 30000, "findings": {3: "C20-F3", 4: "C20-F4"}, "shard": 100,
+    }, {
+        "name": "schema", "pkg": "./internal/rules/mechanisms", "test": "TestVerifC20Schema",
+        "overlay": {"internal/rules/mechanisms/zz_verif_c20_schema_test.go": "c20/c20_schema_test.go"},
+        "eval_module": "Run.Eval_C20", "check_term": "check_schema",
+        "n_quick": 0, "n_thorough": 0, "findings": {1: "C20-F1"}, "env": {"VERIF_C20_PROBES": PROBES},
+        "escalate": False,
     }],
-    "rule": "TODO",
+    "generators": [gen_schema_tables],
+    "rule": "generated configurations (1-3 top-level fields, maps/lists/scalars nested up to depth 4, 27 scalar texts incl. "
+            "0123/1e3/0x10/quoted) with every leaf assigned to a temporary YAML file or to the process environment (modes allfile/"
+            "allenv/split/conflict/malformed), optional defaults tree, name variants (case, leading zeros, __ for _), shuffled "
+            "enumeration order; loaded through the real parser.New(...).Load, each load repeated 6-30 times because Go's map order "
+            "is random; the merged tree is captured by a decode hook.  Non-trivial = at least two variables with a list index or a "
+            "file next to them, or file+environment+defaults together; distinct by hash of the generated input",
     "anchors": ["internal/config/parser/configloader.go", "internal/config/parser/env.go", "internal/config/parser/merge.go",
                 "internal/config/parser/yaml.go", "internal/config/configuration.go", "internal/config/default_configuration.go",
                 "internal/config/validator.go", "schema/config.schema.json"],
-    "trusted": [],
-    "level_text": "TODO",
-    "level_note": "TODO",
+    "trusted": ["YAML scalar typing (toRealType / the YAML parser) is an oracle: the observed typed value per scalar text of the case",
+                "the sha256 suffix of environment keys is modelled by its pre-image (normalised name, value text); collisions are not modelled",
+                "mapstructure decoding of the merged tree into the Configuration struct is not modelled: the observable is the merged tree "
+                "that Load hands to the decoder (captured by a decode hook)",
+                "koanf (env provider, maps.Unflatten, Load with merge function, Raw) is transcribed into the model and covered by the correspondence run"],
+    "level_text": "tbd",
+    "level_note": "tbd",
     "assumptions": [],
 }
